@@ -418,7 +418,7 @@ def _propagate_dynsys(
     t_eval = np.linspace(t0, tf, steps)
 
     # Handle zero-length intervals gracefully to avoid integrator issues
-    if steps >= 2 and np.isclose(t_eval[0], t_eval[-1]):
+    if steps >= 2 and t_eval[0] == t_eval[-1]:
         times_signed = forward * t_eval
         states = np.repeat(state0_np[None, :], repeats=len(t_eval), axis=0)
         return _Solution(times_signed, states)
